@@ -20,46 +20,27 @@ TWO, MULTI = "TwoLevelCheckpointSchedule", "MultistageCheckpointSchedule"
 
 
 def roles(run_):
-    """sequence of action roles of the innermost loop that contains `yield Reverse`"""
-    fn = run_.fn
-    target = None
-    for n in ast.walk(fn):
-        if isinstance(n, ast.While):
-            direct = []
-            stack = list(n.body)
-            while stack:
-                s = stack.pop()
-                if isinstance(s, ast.While):
-                    continue
-                for ch in ast.iter_child_nodes(s):
-                    if isinstance(ch, ast.stmt):
-                        stack.append(ch)
-                if isinstance(s, ast.Expr) and isinstance(s.value, ast.Yield):
-                    direct.append(s.value)
-            if any(isinstance(y.value, ast.Call) and getattr(y.value.func, "id", "") == "Reverse" for y in direct):
-                target = n
-    if target is None:
-        return None
-    inside = {id(n) for n in ast.walk(target)}
-    recs = {}
+    """the set of action roles that occur after EndForward (the reversal), from the analysed states - where the
+    yields sit syntactically (inline, in a nested generator, in a helper method) does not matter"""
+    out = set()
+    seen = False
     for rec in run_.interp.yields:
-        if id(rec.node) in inside:
-            recs.setdefault((rec.node.lineno, rec.node.col_offset), []).append(rec)
-    seq = []
-    for pos in sorted(recs):
-        rec = recs[pos][0]
         st = rec.state
+        if st.enum_single("$ef") != "1" or rec.kind in ("EndForward", "EndReverse"):
+            continue
+        seen = True
         if rec.kind in ("Copy", "Move"):
             popped = any(v == {"X"} for v in shared.trk_values(st).values())
             role = "LOAD-LAST" if popped else "LOAD-KEEP"
         elif rec.kind == "Forward":
             wi, wa = truth(st, rec.arg(2)), truth(st, rec.arg(3))
+            if wi is None or wa is None:
+                return None
             role = "WRITE" if wi else ("ADJSTEP" if wa else "ADVANCE")
         else:
             role = rec.kind.upper()
-        if not seq or seq[-1] != role:
-            seq.append(role)
-    return seq
+        out.add(role)
+    return sorted(out) if seen else None
 
 
 def run(chk, ctx):
@@ -88,6 +69,10 @@ def run(chk, ctx):
                        f"flags ({wi}, {wa}) storage {sto}: restart checkpoint to DISK required", rel=run_.rel, node=rec.node)
     # ---- SIB: the same rule set on both loops
     both = two + ref
+    # representative runs for the syntactic comparisons: the run that reaches the most actions (with the
+    # boundary cells of the thorough tier, degenerate cells reach no reversal at all)
+    two = sorted(two, key=lambda r: -len(r.interp.yields))
+    ref = sorted(ref, key=lambda r: -len(r.interp.yields))
     for run_ in both:
         it = run_.interp
         for rec in it.yields:
@@ -154,16 +139,23 @@ def run(chk, ctx):
             out.append((c, pkey(steps), pkey(padd(units, capp, -1))))
         return out
     cp2, cp1 = call_polys(two[0]), call_polys(ref[0])
+    # a textual cross-reading of the two loops (the deciding rules are SIB-UNITS and SIB-ADV, which hold each call
+    # against max_n - r - n0 and capacity - depth in the analysed state); a mismatch here is reported as a note,
+    # because the same calls can be written in many equivalent ways (locals, helpers, nested generators)
     if len(cp1) != len(cp2) or not cp1:
-        chk.decide("C13.SIB", f"{two[0].construct}#planner-calls", None if cp1 and cp2 else None,
-                   f"{len(cp2)} planner calls in the block reversal, {len(cp1)} in the Multistage reversal", rel=two[0].rel, node=two[0].fn)
+        chk.note(f"C13.SIB/planner-calls: {len(cp2)} planner call sites in the block reversal, {len(cp1)} in the Multistage "
+                 "reversal (not compared textually; see SIB-UNITS / SIB-ADV)")
     else:
         for k, ((c2, s2, u2), (c1, s1, u1)) in enumerate(zip(cp2, cp1)):
             same = s2 == s1 and u2 == u1
-            chk.decide("C13.SIB", f"{two[0].construct}#planner-call[{k}]", True if same else False,
-                       f"steps {pstr(dict(s2))} / units-capacity {pstr(dict(u2))}  vs. Multistage steps {pstr(dict(s1))} / "
-                       f"units-capacity {pstr(dict(u1))}", rel=two[0].rel, node=c2)
-    shared.rule_config(chk, "C13.CONFIG", ctx.repo, classes=[TWO, MULTI])
+            if same:
+                chk.decide("C13.SIB", f"{two[0].construct}#planner-call[{k}]", True,
+                           f"steps {pstr(dict(s2))} / units-capacity {pstr(dict(u2))}: the same expressions as in Multistage",
+                           rel=two[0].rel, node=c2, nontrivial=False)
+            else:
+                chk.note(f"C13.SIB/planner-call[{k}]: written differently from Multistage (steps {pstr(dict(s2))} / units-capacity "
+                         f"{pstr(dict(u2))} vs. {pstr(dict(s1))} / {pstr(dict(u1))}); decided by SIB-UNITS / SIB-ADV")
+    shared.rule_config(chk, "C13.CONFIG", ctx, classes=[TWO, MULTI])
     r2, r1 = roles(two[0]), roles(ref[0])
     cons = f"{two[0].construct}#roles"
     tracked = not (two[0].interp.untracked or ref[0].interp.untracked) and two[0].interp.containers and ref[0].interp.containers
